@@ -347,6 +347,13 @@ def _run(cx, out):
             out.floor('R05.1', 'Encode impls in codec-fuzzer', n, 4)
         except factsmod.BuildError as e:
             out.note('codec-fuzzer could not be compiled under the driver: %s' % str(e)[:200])
+    # premise: "for every type definition" includes generic ones — the where-clauses the derives generate are what the fields
+    # require (C17 W17.5: instantiations whose field types support the traits compile, others are rejected), and user
+    # expressions spliced into generated code keep their meaning (W17.4)
+    if not getattr(cx, '_seed_loop_done', False):
+        from . import shared
+        shared.premises(cx, out, {'c17': {'W17.4', 'W17.5'}})
+        cx._seed_loop_done = True
     from . import positive
     positive.check(cx, out, 'C05')
 
